@@ -609,9 +609,13 @@ def atoms(sort):
 def extra_atoms():
     """Constants outside the sorted grids (only ever alone or with show_optimized off)."""
     big = tuple(str(2 * k) for k in range(1, 13))  # 1 .. 12
+    huge = tuple(str(2 * k) for k in range(1, 41))  # 1 .. 40
     return [("eq", "100000"), ("ne", "100000"), ("eq", "200000"), ("in", STR[0], "2", "5"), ("notin", "100000", "2"), ("gele", STR[0], STR[1]), ("eq", "3"), ("ge", "-1"),
             ("in", *big[:7]), ("in", *big), ("notin", *big[:8]), ("subset", *big[:9]), ("rsubset", *big), ("superset", *big[:7]), ("rsuperset", *big[:10]),
-            ("in", STR[0], STR[1], STR[2], "2", "4", "6", "8", "10")]
+            ("in", STR[0], STR[1], STR[2], "2", "4", "6", "8", "10"),
+            # every size from 13 to 17, then 25 and 40: a label names every member (or says that it does not), whatever the size
+            ("in", *huge[:13]), ("notin", *huge[:13]), ("subset", *huge[:13]), ("rsubset", *huge[:14]), ("superset", *huge[:13]), ("rsuperset", *huge[:15]), ("in", *huge[:14]),
+            ("in", *huge[:16]), ("notin", *huge[:17]), ("in", *huge[:25]), ("subset", *huge)]
 
 
 def unknown_atoms():
@@ -738,6 +742,7 @@ def extras():
     import math
 
     from predicate import all_p, eq_p, fn_p, ge_p, in_p, is_int_p, is_list_of_p, is_none_p, lazy_p, ne_p
+    from predicate import comp_p as comp_p_
     from predicate.standard_predicates import is_finite_p, is_str_p
     from predicate.str_predicates import is_alpha_p
 
@@ -768,6 +773,11 @@ def extras():
         ("subset {False} & subset {0}", lambda: IsSubsetPredicate({False}) & IsSubsetPredicate({0})),
         # names that are not DOT identifiers, on nodes that have a parent (an edge end point is parsed with port syntax node:port)
         ("~named 'ns:p' & named 'q'", lambda: ~NamedPredicate(name="ns:p") & NamedPredicate(name="q")), ("all(lazy 'a:b') | named 'c:d:e'", lambda: all_p(lazy_p("a:b")) | NamedPredicate(name="c:d:e")),
+        # parameters that are themselves predicates (a predicate is a callable: comp_p(is_str_p, ...); a constant may be one): they are
+        # parameters, not operands -- no edge, no extra subtree
+        ("comp_p(is_str_p, eq False)", lambda: comp_p_(is_str_p, eq_p(False))), ("~comp_p(is_int_p | is_str_p, eq True) & is_none_p", lambda: ~comp_p_(is_int_p | is_str_p, eq_p(True)) & is_none_p),
+        ("all(comp_p(is_none_p, is_int_p))", lambda: all_p(comp_p_(is_none_p, is_int_p))), ("eq <predicate is_int_p>", lambda: eq_p(is_int_p)), ("ne <predicate is_int_p | is_str_p> | is_none_p", lambda: ne_p(is_int_p | is_str_p) | is_none_p),
+        ("fn_p(is_int_p)", lambda: fn_p(is_int_p)),
         ("named 'x -> y' ^ named 'n\"q'", lambda: NamedPredicate(name="x -> y") ^ NamedPredicate(name='n"q')), ("~named 'a b'", lambda: ~NamedPredicate(name="a b")),
     ]
 
@@ -892,7 +902,7 @@ def main(tier):
         "every supported atom kind at 3-8 parameter choices (numbers incl. a float and a negative, strings, None, empty string, bounds in both orders, sets of 0-3 members, "
         "class tuples of 0-3 classes in both orders, two functions, bound and unbound references) alone, under not/all/any/comp, as key and as value of dict_of, and "
         "with 5 partners under and/or/xor in both operand orders; all trees <= %d nodes over 6 leaves; all trees <= 4 nodes over this/root/lazy(bound)/lazy(unbound)/eq "
-        "with a caller frame binding the reference; trees in which one composite predicate OBJECT occurs at 2-4 positions (family 'shared'); sets of 7-12 members; %d random trees of 3-7 nodes over the whole grid; 8 unknown kinds in 13 positions each; everything with "
+        "with a caller frame binding the reference; trees in which one composite predicate OBJECT occurs at 2-4 positions (family 'shared'); sets of 7-17, 25 and 40 members; %d random trees of 3-7 nodes over the whole grid; 8 unknown kinds in 13 positions each; everything with "
         "show_optimized off and on.  Per case: model toDot vs parsed Digraph.body (ids, names, labels with constants decoded, edges with styles, in order), and on the "
         "real output alone: walk with the real predicate (and with the real optimize(p)), label oracle, disjoint ids, dashed edges.  non-trivial = cases with more than "
         "two nodes or where optimize changed the predicate." % (4 if tier == "quick" else 5, 2500 if tier == "quick" else 60000)
